@@ -46,8 +46,8 @@ func appendRoot(w *rhpx.World, n int) types.Hash256 {
 
 // runC09 executes a scenario on a fresh world with a contract of k sectors and checks the invariants
 // after every attempt. Returns (signature, description).
-func runC09(k int, steps []c09Step) (string, string) {
-	w := newWorld()
+func runC09(k int, steps []c09Step, trusting bool) (string, string) {
+	w := newWorldWith(trusting)
 	defer w.Close()
 	w.Plant(k, types.Siacoins(100), types.Siacoins(200))
 	model := make([]types.Hash256, k)
@@ -200,8 +200,9 @@ func c09() {
 		maxK = 8
 	}
 	type scen struct {
-		k     int
-		steps []c09Step
+		k        int
+		steps    []c09Step
+		trusting bool
 	}
 	var scens []scen
 	for k := 0; k <= maxK; k++ {
@@ -213,31 +214,31 @@ func c09() {
 					idx = append(idx, uint64(i))
 				}
 			}
-			scens = append(scens, scen{k, []c09Step{{Kind: "free", Indices: idx}}})
+			scens = append(scens, scen{k: k, steps: []c09Step{{Kind: "free", Indices: idx}}})
 			for stop := 1; stop <= 3; stop++ {
 				// an aborted attempt followed by the same honest operation: the contract must not be stuck
-				scens = append(scens, scen{k, []c09Step{{Kind: "rawfree", Indices: idx, Stop: stop}, {Kind: "free", Indices: idx}}})
+				scens = append(scens, scen{k: k, steps: []c09Step{{Kind: "rawfree", Indices: idx, Stop: stop}, {Kind: "free", Indices: idx}}})
 			}
-			scens = append(scens, scen{k, []c09Step{{Kind: "rawfree", Indices: idx, BadSig: true}, {Kind: "free", Indices: idx}}})
+			scens = append(scens, scen{k: k, steps: []c09Step{{Kind: "rawfree", Indices: idx, BadSig: true}, {Kind: "free", Indices: idx}}})
 			if len(idx) <= 3 {
 				for _, p := range perms(idx) {
-					scens = append(scens, scen{k, []c09Step{{Kind: "rawfree", Indices: p}}})
+					scens = append(scens, scen{k: k, steps: []c09Step{{Kind: "rawfree", Indices: p}}})
 				}
 			}
 			// honest client given the indices in ascending order with a duplicate
-			scens = append(scens, scen{k, []c09Step{{Kind: "free", Indices: append(append([]uint64(nil), idx...), idx[0])}}})
+			scens = append(scens, scen{k: k, steps: []c09Step{{Kind: "free", Indices: append(append([]uint64(nil), idx...), idx[0])}}})
 		}
 		// duplicates and out-of-range raw
 		for _, bad := range [][]uint64{{0, 0}, {uint64(k)}, {uint64(k) + 5}, {0, uint64(k)}} {
-			scens = append(scens, scen{k, []c09Step{{Kind: "rawfree", Indices: bad}, {Kind: "append", Roots: []int{0}}}})
+			scens = append(scens, scen{k: k, steps: []c09Step{{Kind: "rawfree", Indices: bad}, {Kind: "append", Roots: []int{0}}}})
 		}
 		// appends mixing known and unknown roots, with aborts
 		for _, batch := range [][]int{{0}, {0, 1}, {-1}, {0, -1}, {-1, 0}, {0, -1, 1}, {-1, -2}} {
-			scens = append(scens, scen{k, []c09Step{{Kind: "append", Roots: batch}}})
+			scens = append(scens, scen{k: k, steps: []c09Step{{Kind: "append", Roots: batch}}})
 			for stop := 1; stop <= 3; stop++ {
-				scens = append(scens, scen{k, []c09Step{{Kind: "append", Roots: batch, Stop: stop}, {Kind: "append", Roots: batch}}})
+				scens = append(scens, scen{k: k, steps: []c09Step{{Kind: "append", Roots: batch, Stop: stop}, {Kind: "append", Roots: batch}}})
 			}
-			scens = append(scens, scen{k, []c09Step{{Kind: "append", Roots: batch, BadSig: true}, {Kind: "append", Roots: batch}}})
+			scens = append(scens, scen{k: k, steps: []c09Step{{Kind: "append", Roots: batch, BadSig: true}, {Kind: "append", Roots: batch}}})
 		}
 	}
 	// sequences of length <= 3 over a small operation menu on contracts of 2..4 sectors
@@ -258,7 +259,7 @@ func c09() {
 		var rec func(prefix []c09Step)
 		rec = func(prefix []c09Step) {
 			if len(prefix) == seqLen {
-				scens = append(scens, scen{k, append([]c09Step(nil), prefix...)})
+				scens = append(scens, scen{k: k, steps: append([]c09Step(nil), prefix...)})
 				return
 			}
 			for _, s := range m {
@@ -266,6 +267,11 @@ func c09() {
 			}
 		}
 		rec(nil)
+	}
+	// every scenario against the in-repo reference contractor and against a contractor that trusts the server
+	for _, sc := range append([]scen(nil), scens...) {
+		sc.trusting = true
+		scens = append(scens, sc)
 	}
 	var mu sync.Mutex
 	outcomes := map[string]bool{}
@@ -282,17 +288,17 @@ func c09() {
 					sig, what = "c09:panic", fmt.Sprintf("contract with %d sectors, attempts %v: panic: %v", sc.k, sc.steps, r)
 				}
 			}()
-			sig, what = runC09(sc.k, sc.steps)
+			sig, what = runC09(sc.k, sc.steps, sc.trusting)
 		}()
 		run.Add(int64(len(sc.steps)), int64(len(sc.steps)), 1, int64(len(sc.steps)))
 		mu.Lock()
-		outcomes[fmt.Sprint(sc.k, sc.steps)] = true
+		outcomes[fmt.Sprint(sc.k, sc.steps, sc.trusting)] = true
 		mu.Unlock()
 		if i%997 == 0 {
 			run.Sample(map[string]any{"contract_sectors": sc.k, "attempts": fmt.Sprint(sc.steps)})
 		}
 		if sig != "" {
-			run.Violate(sig, what, map[string]any{"contract_sectors": sc.k, "attempts": fmt.Sprint(sc.steps)})
+			run.Violate(sig, fmt.Sprintf("[trusting contractor=%v] %s", sc.trusting, what), map[string]any{"contract_sectors": sc.k, "attempts": fmt.Sprint(sc.steps), "trusting_contractor": sc.trusting})
 		}
 	})
 	run.DistinctN = int64(len(outcomes))
